@@ -599,14 +599,14 @@ PROPS = {
     'selftest': dict(groups=selftest, functions=['everything reachable from the exported API, run concretely'], witness_replays=100000, partition=False,
                      outside='translator validation only: concrete inputs, engine interpretation compared with the native build observable by observable'),
     'C01': dict(groups=c01, functions=SAT_FUNCS, outside='trees with more leaves than the bound; allowed lists with more entries than m (for license-only trees m >= number of leaves needed by one alternative); leaf ids outside the pools (connected through C02/C08/C09, which quantify over all ids)'),
-    'C06': dict(groups=c06, functions=SAT_FUNCS + ['ExtractLicenses', 'flatten', 'removeDuplicateStrings'], outside='trees with more leaves than the bound'),
+    'C06': dict(groups=c06, full_bounds_in_quick=True, functions=SAT_FUNCS + ['ExtractLicenses', 'flatten', 'removeDuplicateStrings'], outside='trees with more leaves than the bound'),
     'C07': dict(groups=c07, functions=SAT_FUNCS, outside='lists of more than 3 entries (+1); re-spellings other than case / spaces / parentheses'),
     'C10': dict(groups=c10, functions=SAT_FUNCS + ['ExtractLicenses'], outside='rewrite instances with more leaves than the bound; sequences of rewrites follow by transitivity, rewrites at depth by the homomorphism clause'),
-    'C02': dict(groups=c02, functions=MATCH_FUNCS, outside='exception ids other than the two chosen by the seed (all exceptions are covered for a 12-id universe in thorough); ids that sit at more than one table position (reported by C11)'),
-    'C08': dict(groups=c08, functions=MATCH_FUNCS, outside='contexts other than the listed ones (by C01 the verdict depends on the match atoms only)'),
-    'C09': dict(groups=c09, functions=MATCH_FUNCS + ['ExtractLicenses'], outside='operators, reference prefixes, the -only/-or-later suffixes, user reference names (excluded by the statement)'),
-    'C11': dict(groups=c11, functions=MATCH_FUNCS, outside='ids whose text does not follow base-version[-qualifier]; families the table does not cover at all'),
-    'C12': dict(groups=c12, functions=MATCH_FUNCS + ['cmd.extractLicenseIDs', 'cmd.extractExceptionLicenseIDs'],
+    'C02': dict(groups=c02, full_bounds_in_quick=True, functions=MATCH_FUNCS, outside='exception ids other than the two chosen by the seed (all exceptions are covered for a 12-id universe in thorough); ids that sit at more than one table position (reported by C11)'),
+    'C08': dict(groups=c08, full_bounds_in_quick=True, functions=MATCH_FUNCS, outside='contexts other than the listed ones (by C01 the verdict depends on the match atoms only)'),
+    'C09': dict(groups=c09, full_bounds_in_quick=True, functions=MATCH_FUNCS + ['ExtractLicenses'], outside='operators, reference prefixes, the -only/-or-later suffixes, user reference names (excluded by the statement)'),
+    'C11': dict(groups=c11, full_bounds_in_quick=True, functions=MATCH_FUNCS, outside='ids whose text does not follow base-version[-qualifier]; families the table does not cover at all'),
+    'C12': dict(groups=c12, full_bounds_in_quick=True, functions=MATCH_FUNCS + ['cmd.extractLicenseIDs', 'cmd.extractExceptionLicenseIDs'],
                 stubs=['os.Open / json.NewDecoder / Decode: structured stub document, Go fields selected by json tag as encoding/json does', 'os.WriteFile: captured', 'fmt.Println: output effect'],
                 outside='encoding/json itself, file I/O and main()\'s flag handling (stubs); generator runs on more than 3-4 entries (the loops are uniform: argument); JSON-table agreement is a comparison of concrete data'),
     'C03': dict(groups=c03, panics_violate=True, assert_violations=False, functions=PARSE_FUNCS + LEX_FUNCS + ['Satisfies', 'ExtractLicenses', 'ValidateLicenses', 'expand*', 'appendTerms', 'mergeTerms'],
